@@ -692,3 +692,71 @@ def r10(R):
             'missing file nor the newer increments -- verification passes '
             'and a recovery concatenates two different chains',
             key='chain membership not verified')
+
+
+# ----------------------------------------------------------------- C18.R11
+@rule('C18.R11', 'the index saved with a backup is the index of the very '
+      'open of the data file whose position bounds the copy: the position '
+      'handed to index.save() was read, in the same function, from the same '
+      'storage object (another, later open has indexed what was committed '
+      'meanwhile)', min_instances=2)
+def r11(R):
+    m = R.prog.module('ZODB.scripts.repozo')
+    n = 0
+    for f in m.functions.values():
+        saves = [c for c in walk_local(f.node) if isinstance(c, ast.Call) and
+                 isinstance(c.func, ast.Attribute) and c.func.attr == 'save'
+                 and isinstance(c.func.value, ast.Attribute) and
+                 c.func.value.attr == '_index' and isinstance(
+                     c.func.value.value, ast.Name) and c.args]
+        for c in saves:
+            n += 1
+            recv = c.func.value.value.id
+            pos = c.args[0]
+            R.instance('%s: %s' % (f.name, ' '.join(ast.unparse(c).split())))
+            ok = False
+            if isinstance(pos, ast.Name):
+                def from_getsize(name, depth=0):
+                    defs = [s for s in walk_local(f.node) if isinstance(
+                        s, ast.Assign) and any(isinstance(t, ast.Name) and
+                                               t.id == name
+                                               for t in s.targets)]
+                    if not defs:
+                        return False
+                    for s in defs:
+                        v = s.value
+                        if isinstance(v, ast.Name) and depth < 3 and \
+                                from_getsize(v.id, depth + 1):
+                            continue
+                        if not (isinstance(v, ast.Call) and isinstance(
+                                v.func, ast.Attribute) and
+                                v.func.attr == 'getSize' and isinstance(
+                                    v.func.value, ast.Name) and
+                                v.func.value.id == recv):
+                            return False
+                    return True
+                ok = from_getsize(pos.id)
+                # ... and that storage object is opened once in the function
+                opens = [s for s in walk_local(f.node) if isinstance(
+                    s, ast.Assign) and any(isinstance(t, ast.Name) and
+                                           t.id == recv for t in s.targets)]
+                ok = ok and len(opens) == 1
+            elif isinstance(pos, ast.Call) and isinstance(
+                    pos.func, ast.Attribute) and pos.func.attr == 'getSize' \
+                    and isinstance(pos.func.value, ast.Name) and \
+                    pos.func.value.id == recv:
+                ok = True
+            if not ok:
+                R.violation(
+                    (f.module.relpath, f.qualname,
+                     ' '.join(ast.unparse(c).split()), c.lineno),
+                    '%s saves the index of `%s` for a position that was not '
+                    'read from that same storage object in this function: '
+                    'when the data file was opened again after the position '
+                    'was taken, the index covers transactions committed '
+                    'meanwhile that the copied bytes do not have -- '
+                    'FileStorage accepts it for the recovered file, and '
+                    'loading an object they changed raises '
+                    'CorruptedDataError' % (f.name, recv),
+                    key='index saved from another open than the position')
+    R.require(n >= 2, 'repozo no longer saves an index with its backups')
